@@ -12,7 +12,7 @@ namespace etl {
 /// R1 and R2.
 /// \ingroup ratio
 template <typename R1, typename R2>
-using ratio_divide = ratio<R1::num * R2::den, R1::den * R2::num>;
+using ratio_divide = typename ratio<R1::num * R2::den, R1::den * R2::num>::type;
 
 } // namespace etl
 
